@@ -85,6 +85,17 @@ CHECKS = {
          "Trusted: pyprops/formats.py. UF2 blocks of the fixed RP2350-E10 family are not program bytes; WDC/S-record "
          "terminators are optional; wdc/S2 only judged inside their 24-bit range; byte addresses >= 2^31 on bpa>1 CPUs "
          "excluded (open finding C05-signed-byte-address).", "DESIGN.md 3/C03"),
+ "C12": ("hypothesis+nvserve",
+         "Hypothesis structured programs +- one corruption at a generated position; CLI observables consistency oracle",
+         "Generated-input search: Hypothesis builds structured programs (instructions of 20 CPUs, data, labels, macros, "
+         "conditionals, repeats, includes) for all 8 output types and inserts at most one of 37 corruptions at a "
+         "generated position (top level, first/last line, taken/untaken conditional, invoked/uninvoked macro, include "
+         "file, repeat body). The sanitized CLI runs with a stale file at the -o path; exit status, diagnostics and the "
+         "output file must agree (exit 0 <=> no diagnostic and a complete file equal to the in-process image; exit 1 "
+         "=> nothing at the path; never a signal), and corruptions invalid by construction on an assembled line must be "
+         "rejected.",
+         "Diagnostic = stdout line with one of the error phrases used by print_error*/ad-hoc printfs; 'Warning' lines are "
+         "not. Structural corruptions inside another block are only held to the consistency oracle.", "DESIGN.md 3/C12"),
 }
 
 NOT_YET = "check not built yet (work in progress; see DESIGN.md section 3)"
